@@ -336,3 +336,137 @@ Proof.
     destruct (N.leb_spec (Z.to_N l) (lenN rest)) as [L|L]; [|reflexivity].
     unfold io_ret. cbn [N.eqb run_flat]. apply Fin.
 Qed.
+
+(* ---- BitSet.ReadFrom: length, `Len < 0` check, make-or-reslice on `int(Len) > cap`, then Len times
+   Long.ReadFrom into element i *)
+From GoMC Require Import Proofs.C06_read.
+Local Open Scope Z_scope.
+Definition inj_bitset (p : (list Z * list Z) * Z) : fval * N := (VList (map VZ (fst (fst p))) [], Z.to_N (snd p)).
+
+Lemma upd_nth_length l : forall i v, length (upd_nth l i v) = length l.
+Proof. induction l as [|h t IH]; intros [|i] v; cbn; auto. Qed.
+Lemma upd_nth_firstn l : forall i v, firstn i (upd_nth l i v) = firstn i l.
+Proof. induction l as [|h t IH]; intros [|i] v; cbn; auto. rewrite IH. reflexivity. Qed.
+Lemma upd_nth_nth l : forall i v, (i < length l)%nat -> nth i (upd_nth l i v) 0 = v.
+Proof. induction l as [|h t IH]; intros [|i] v H; cbn in *; try lia; auto. apply IH. lia. Qed.
+Lemma firstn_S_nth (l : list Z) : forall i, (i < length l)%nat -> firstn (S i) l = firstn i l ++ [nth i l 0].
+Proof. induction l as [|h t IH]; intros [|i] H; cbn in *; try lia; auto. rewrite <- IH by lia. reflexivity. Qed.
+Lemma skipn_nth_cons' (b : list Z) i : (i < length b)%nat -> skipn i b = nth i b 0 :: skipn (S i) b.
+Proof.
+  revert i. induction b as [|x b IH]; intros i H; [cbn in H; lia|].
+  destruct i as [|i]; [reflexivity|]. cbn [skipn nth]. apply IH. cbn in H. lia.
+Qed.
+
+Lemma run_bind_r_long {B} (f : fval * N -> dec B) s :
+  run_flat (bind r_long f) s
+  = if (8 <=? lenN s)%N then run_flat (f (VZ (sx64 (unbe (takeN 8 s))), 8%N)) (dropN 8 s) else FErr eEOF.
+Proof. unfold r_long, r_fixed. cbn [bind run_flat]. reflexivity. Qed.
+
+Section BitLoop.
+Variable L : nat -> Z -> list Z -> Z -> dec (list Z * Z).
+Hypothesis L0 : forall i b n, L 0 i b n = Ret (b, n).
+Hypothesis LS : forall k i b n, L (S k) i b n =
+  bind packet_Long_ReadFrom_io (fun p => let '(v, n2) := p in L k (wrap_s 64 (i + 1)) (zupd b i v) (wrap_s 64 (n + n2))).
+
+Lemma bitloop_tie olds : forall k i b n s fuel, all_bytes s -> length b = (i + k)%nat -> (k <= fuel)%nat ->
+  0 <= n -> n + 8 * Z.of_nat k < 2 ^ 62 -> Z.of_nat (i + k) < 2 ^ 62 ->
+  match run_flat (L k (Z.of_nat i) b n) s,
+        run_flat (r_elems fuel (fun _ => r_long) olds (N.of_nat i) (N.of_nat (i + k))) s with
+  | FOk (b', n') r1, FOk (vs, m) r2 =>
+      r1 = r2 /\ all_bytes r1 /\ length b' = length b /\ firstn i b' = firstn i b
+      /\ map VZ (skipn i b') = vs /\ n' = n + Z.of_N m
+  | FErr e1, FErr e2 => e1 = e2
+  | _, _ => False
+  end.
+Proof.
+  induction k as [|k IH]; intros i b n s fuel Hs Hb Hf Hn Hn2 Hi;
+    change (2 ^ 62) with 4611686018427387904 in *.
+  - rewrite L0. rewrite Nat.add_0_r. destruct fuel; cbn [r_elems]; rewrite N.leb_refl; cbn [run_flat].
+    all: repeat split; auto; try lia; rewrite skipn_all2 by lia; reflexivity.
+  - destruct fuel as [|fuel]; [lia|]. rewrite LS. rewrite run_flat_bind by apply robust_Long_io.
+    rewrite run_Long_io by exact Hs. cbn [r_elems].
+    destruct (N.leb_spec (N.of_nat (i + S k)) (N.of_nat i)) as [?|_]; [lia|].
+    rewrite run_bind_r_long.
+    destruct (N.leb_spec 8 (lenN s)) as [L8|L8]; [|exact eq_refl].
+    pose proof (unbe_take_lt 8 s Hs L8) as B. rewrite wrap_s_sx64 by exact B.
+    set (v := sx64 (unbe (takeN 8 s))).
+    rewrite run_flat_bind by (apply r_elems_robust; intros; apply r_fixed_robust).
+    rewrite (wrap_s_id 64 (Z.of_nat i + 1)) by (change (2 ^ (64 - 1)) with 9223372036854775808; lia).
+    rewrite (wrap_s_id 64 (n + 8)) by (change (2 ^ (64 - 1)) with 9223372036854775808; lia).
+    replace (Z.of_nat i + 1) with (Z.of_nat (S i)) by lia.
+    replace (N.of_nat i + 1)%N with (N.of_nat (S i)) by lia.
+    replace (i + S k)%nat with (S i + k)%nat by lia.
+    specialize (IH (S i) (zupd b (Z.of_nat i) v) (n + 8) (dropN 8 s) fuel (all_bytes_dropN 8 s Hs)).
+    unfold zupd in IH. rewrite Nat2Z.id in IH. rewrite upd_nth_length in IH.
+    specialize (IH ltac:(lia) ltac:(lia) ltac:(lia) ltac:(lia) ltac:(lia)).
+    unfold zupd. rewrite Nat2Z.id.
+    destruct (run_flat (L k (Z.of_nat (S i)) (upd_nth b i v) (n + 8)) (dropN 8 s)) as [[b' n'] r1| | |];
+    destruct (run_flat (r_elems fuel (fun _ => r_long) olds (N.of_nat (S i)) (N.of_nat (S i + k))) (dropN 8 s)) as [[vs m] r2| | |];
+      try contradiction; try exact IH.
+    destruct IH as (-> & Hr & Hlen & Hfirst & Hvs & ->). cbn [run_flat].
+    assert (Hi' : (i < length b)%nat) by lia.
+    assert (Hnth : nth i b' 0 = v).
+    { rewrite (firstn_S_nth b' i) in Hfirst by lia. rewrite (firstn_S_nth (upd_nth b i v) i) in Hfirst by (rewrite upd_nth_length; lia).
+      apply app_inj_tail in Hfirst. destruct Hfirst as [_ E]. rewrite E. apply upd_nth_nth. exact Hi'. }
+    repeat split; auto.
+    + rewrite (firstn_S_nth b' i) in Hfirst by lia. rewrite (firstn_S_nth (upd_nth b i v) i) in Hfirst by (rewrite upd_nth_length; lia).
+      apply app_inj_tail in Hfirst. destruct Hfirst as [E _]. rewrite E. apply upd_nth_firstn.
+    + rewrite (skipn_nth_cons' b' i) by lia. cbn [map]. rewrite Hnth, Hvs. reflexivity.
+    + lia.
+Qed.
+End BitLoop.
+
+Lemma ztake_length n (l : list Z) : 0 <= n <= zlen l -> length (ztake n l) = Z.to_nat n.
+Proof. unfold ztake, zlen, lenN. intros H. rewrite firstn_length. lia. Qed.
+Lemma zrepeat_length n : length (zrepeat n) = Z.to_nat n.
+Proof. unfold zrepeat. apply repeat_length. Qed.
+
+(* the loop result injected, against the model's continuation *)
+Lemma bitset_finish (L : nat -> Z -> list Z -> Z -> dec (list Z * Z)) 
+  (L0 : forall i b n, L 0%nat i b n = Ret (b, n))
+  (LS : forall k i b n, L (S k) i b n =
+     bind packet_Long_ReadFrom_io (fun p => let '(v, n2) := p in L k (wrap_s 64 (i + 1)) (zupd b i v) (wrap_s 64 (n + n2))))
+  fuel l n (b0 sp : list Z) rest : all_bytes rest -> 0 <= l < 2 ^ 31 -> (n <= 5)%N -> (Z.to_nat l <= fuel)%nat ->
+  length b0 = Z.to_nat l ->
+  fmapr inj_bitset (run_flat (bind (L (Z.to_nat l) 0 b0 (Z.of_N n)) (fun p => let '(b', n') := p in io_ret 0%N ((b', sp), n'))) rest)
+  = run_flat (bind (r_elems fuel (fun _ => r_long) (fun _ => VUnit) 0 (Z.to_N l))
+                   (fun x => let '(vs, n2) := x in Ret (VList vs [], (n + n2)%N))) rest.
+Proof.
+  intros Hr Hl Hn Hf Hb. change (2 ^ 31) with 2147483648 in Hl.
+  assert (RL : forall k i b m, robust (L k i b m)).
+  { induction k as [|k IH]; intros i b m; [rewrite L0; constructor|]. rewrite LS.
+    apply robust_bind; [apply robust_Long_io|]. intros [v n2]. apply IH. }
+  rewrite run_flat_bind by apply RL.
+  rewrite run_flat_bind by (apply r_elems_robust; intros; apply r_fixed_robust).
+  pose proof (bitloop_tie L L0 LS (fun _ => VUnit) (Z.to_nat l) 0 b0 (Z.of_N n) rest fuel Hr) as T.
+  cbn [Nat.add] in T. change (Z.of_nat 0) with 0 in T. change (N.of_nat 0) with 0%N in T.
+  replace (N.of_nat (Z.to_nat l)) with (Z.to_N l) in T by lia.
+  specialize (T Hb Hf ltac:(lia) ltac:(change (2 ^ 62) with 4611686018427387904; lia) ltac:(change (2 ^ 62) with 4611686018427387904; lia)).
+  destruct (run_flat (L (Z.to_nat l) 0 b0 (Z.of_N n)) rest) as [[b' n'] r1| | |];
+  destruct (run_flat (r_elems fuel (fun _ => r_long) (fun _ => VUnit) 0 (Z.to_N l)) rest) as [[vs m] r2| | |];
+    try contradiction; [|cbn [fmapr]; congruence].
+  destruct T as (-> & _ & _ & _ & Hvs & ->). unfold io_ret. cbn [N.eqb run_flat fmapr]. unfold inj_bitset. cbn [fst snd skipn] in *.
+  rewrite Hvs. do 2 f_equal. lia.
+Qed.
+
+Lemma tie_BitSet_read fuel old (b sp : list Z) s : all_bytes s ->
+  (forall l n rest, run_flat read32 s = FOk (l, n) rest -> (Z.to_nat l <= fuel)%nat) ->
+  fmapr inj_bitset (run_flat (packet_BitSet_ReadFrom_io varint_rd b sp) s) = run_flat (r_bitset fuel old) s.
+Proof.
+  intros Hs Hfuel. unfold packet_BitSet_ReadFrom_io, r_bitset. cbv zeta.
+  rewrite run_flat_bind by apply robust_varint_rd. rewrite run_flat_bind by apply read32_robust.
+  rewrite run_varint_rd. destruct (run_flat read32 s) as [[l n] rest| | |] eqn:E; try reflexivity.
+  destruct (read32_facts s l n rest Hs E) as (Rl & Rn & Hr). specialize (Hfuel l n rest eq_refl).
+  cbv beta iota. change (2 ^ 31) with 2147483648 in Rl.
+  destruct (Z.ltb_spec l 0) as [Neg|Pos]; [reflexivity|].
+  rewrite (wrap_s_id 64 l) by (change (2 ^ (64 - 1)) with 9223372036854775808; lia).
+  rewrite Z.sub_0_r.
+  destruct (Z.ltb_spec (zlen b + zlen sp) l) as [Small|Big].
+  - destruct (Z.ltb_spec l 0) as [?|_]; [lia|].
+    apply (bitset_finish packet_BitSet_ReadFrom_io_loop1 (fun _ _ _ => eq_refl) (fun _ _ _ _ => eq_refl) fuel l n (zrepeat l) []);
+      auto; [change (2 ^ 31) with 2147483648; lia|apply zrepeat_length].
+  - rewrite zlen_app. destruct (Z.ltb_spec l 0) as [?|_]; [lia|]. destruct (Z.ltb_spec (zlen b + zlen sp) l) as [?|_]; [lia|].
+    cbn [orb].
+    apply (bitset_finish packet_BitSet_ReadFrom_io_loop2 (fun _ _ _ => eq_refl) (fun _ _ _ _ => eq_refl) fuel l n);
+      auto; [change (2 ^ 31) with 2147483648; lia|apply ztake_length; rewrite zlen_app; lia].
+Qed.
